@@ -112,9 +112,20 @@ def make_directory(rng, conv, tier):
         for f, sfx in zip(ordered, chosen):
             f['name'] = base + sfx + f['ext']
     placement = placement + '/' + naming
+    # nested directories (recursive conversion): some files one and two levels down
+    recurse = rng.random() < 0.4
+    if recurse:
+        subs = ['', '', 'run_1', 'run_1/pass_2', 'run_1/pass_2/x', 'b']
+        for f in ordered:
+            d = rng.choice(subs)
+            if d:
+                f['name'] = d + '/' + f['name']
+        if not any('/' in f['name'] and f['name'].count('/') >= 2 for f in ordered):
+            ordered[-1]['name'] = 'run_1/pass_2/' + ordered[-1]['name'].split('/')[-1]
+        placement += '/nested'
     options = {
         'array_reduction': rng.choice(['first', 'first', 'mean', 'median', 'min', 'max']),
-        'frame_slice': rng.choice([{}, {}, {'step': 2}, {'start': 1, 'stop': None, 'step': 3}, {'sample': 4}, {'stop': 5}]),
+        'frame_slice': rng.choice([{}, {}, {'step': 2}, {'start': 0, 'stop': None, 'step': 3}, {'sample': 4}, {'stop': 5}]),
         # a non-empty subset is a *shared mutable set* inside the sequential driver: names come from the pool the RP66V1 files draw from
         'channels': [] if rng.random() < 0.4 else sorted({nm.decode('ascii') for nm in rng.sample(NAME_POOL, rng.randrange(1, 5))} | ({'NOSUCH'} if rng.random() < 0.2 else set())),
         'field_width': rng.choice([16, 16, 12, 20]),
@@ -123,4 +134,4 @@ def make_directory(rng, conv, tier):
     if conv == 'lis':
         # a non-empty channel subset makes every LIS conversion fail (finding F9c of C11): not counted twice
         options['channels'] = []
-    return {'files': ordered, 'options': options, 'placement': placement}
+    return {'files': ordered, 'options': options, 'placement': placement, 'recurse': recurse}
